@@ -12,7 +12,7 @@ PROPS['C20'] = Prop(
     rule='exhaustive byte strings of length <= 4 over an alphabet, corpus of finding witnesses, by-construction valid ISO 8601 spellings of seeded random instants (years 0..9999, offsets +-14h), single/double mutations of those, non-string JSON values, marshal + round trip under 7 layouts, all on both types packages; counted = distinct encoded inputs with more than 3 integers',
     design_ref='5 C20')
 
-HOOK_COMMITS = []
+HOOK_COMMITS = ['4bf6967', 'a86af3c']
 NOT_APPLICABLE = {}
 MANIFEST_TEXT = {}
 MANIFEST_TEXT['C20'] = dict(
